@@ -500,6 +500,9 @@ def run(spec, tier, seed, replay=None):
             ctx.broken.append(("proof:" + e.what, e.detail))
             ctx.log("proof obligation broken:", e.what)
     finally:
+        if os.path.realpath(REPO) != "/repo":
+            # a run against a scratch tree must not leave ITS generated tables behind for the next run / a commit
+            subprocess.run(["git", "-C", VERIF, "checkout", "--", "lean/OtelVerif/Gen"], capture_output=True)
         fcntl.flock(lock, fcntl.LOCK_UN)
         lock.close()
     # 3./4. correspond + search
